@@ -239,9 +239,12 @@ class DataFrame(Entity, DataSet):
         else:
             if col_name is None or row_idx is None:
                 raise ValueError("Column and rows identifier must be given")
-            cell = self[row_idx][col_name]
-            cell = cell[0]
-            return cell
+            # both identifiers may be given as a scalar or as a length 1 list
+            if not isinstance(col_name, str):
+                col_name, = col_name
+            if isinstance(row_idx, Iterable):
+                row_idx, = row_idx
+            return self[row_idx][col_name]
 
     def print_table(self, row_sl=None, col_sl=None):
         """
